@@ -26,6 +26,17 @@ func (d *driver) runOtherFamily(fam, in string, sh *shards) bool {
 			d.runTranscriptProgram(sh.at(shard), k, line)
 		})
 		return true
+	case "poly":
+		getConf()
+		rr := &roundRobin{sh: sh}
+		forEachLine(in, 1, func(shard, k int, line []byte) {
+			var c polyCase
+			if err := json.Unmarshal(line, &c); err != nil {
+				panic(err)
+			}
+			d.runPolyCase(rr, k, &c)
+		})
+		return true
 	case "sqrt":
 		rr := &roundRobin{sh: sh}
 		forEachLine(in, 1, func(shard, k int, line []byte) {
